@@ -128,3 +128,9 @@ pub fn vx_decode_sniffing(enc: &'static Encoding, bytes: &[u8]) -> (r: String)
 pub fn vx_decode_plain(enc: &'static Encoding, bytes: &[u8]) -> (r: String)
     ensures r@ == dec_page(enc.page(), bytes@)
 { unimplemented!() }
+
+// `slice.to_vec()` (a natural way to return a prefix of the scratch buffer): element-wise clone
+pub assume_specification<T: Clone>[ <[T]>::to_vec ](s: &[T]) -> (r: Vec<T>)
+    ensures
+        r@.len() == s@.len(),
+        forall|i: int| 0 <= i < s@.len() ==> call_ensures(T::clone, (&#[trigger] s@[i],), r@[i]);
